@@ -630,7 +630,7 @@ def _judge_node(ev, b, spec, schema, r, pidx, xsd) -> list[Disc]:
                     exprs.append((f'{r["xpath"]} instance of {st_text(t, True)}', True, tag + '/nilled-optional'))
             else:
                 exprs.append((f'{r["xpath"]} instance of {st_text(t)}', want, tag))
-        batch += [(e, want, tag, ('instance-of', sres['variety'] if sres is not None else 'element-only', tc, False))
+        batch += [(e, want, tag, ('instance-of', union_slot(sres, exp) if sres is not None else 'element-only', tc, False))
                   for e, want, tag in exprs]
 
     # ---- (4) arithmetic / comparison use the typed value ---------------------------------------------------
